@@ -5,6 +5,7 @@ import (
 	"context"
 	"crypto/ed25519"
 	"encoding/base64"
+	"bytes"
 	"encoding/json"
 	"fmt"
 	"runtime/debug"
@@ -396,6 +397,28 @@ func runC04(r *sim.Run) {
 	harnessAssert(err == nil, "built event JSON does not parse: %v", err)
 	c.origProj = c.hashedProj(c.orig)
 	c.origHashes = ref.Render(c.orig["hashes"])
+	// The content hash an event carries is the one every correct server
+	// computes: SHA-256 over the canonical form of the event without unsigned,
+	// signatures and hashes. A library that hashes some other byte sequence
+	// turns every honest remote event of that shape into a redacted one. The
+	// independent canonical form here is encoding/json's (sorted member names,
+	// no HTML escaping), used only where it coincides with Matrix canonical
+	// JSON: no control characters, no U+2028/2029, no U+FFFD anywhere.
+	if body := ref.Without(c.orig, "unsigned", "signatures", "hashes"); plainEnough(body) {
+		var buf bytes.Buffer
+		enc := json.NewEncoder(&buf)
+		enc.SetEscapeHTML(false)
+		if enc.Encode(body) == nil {
+			sum := sha256.Sum256(bytes.TrimRight(buf.Bytes(), "\n"))
+			want := base64.RawStdEncoding.EncodeToString(sum[:])
+			got := ""
+			if h, ok := c.orig["hashes"].(map[string]any); ok {
+				got, _ = h["sha256"].(string)
+			}
+			r.Probe("built_hash_compared_with_independent_canonical_form")
+			c.check(got == want, "control_intact", "built_hash", "the content hash of a built %s event (%s) is not the SHA-256 of its canonical form (%s): content=%s", c.evType, got, want, clip(ref.Render(content), 400))
+		}
+	}
 	c.origJSON = ref.Render(ref.Without(c.orig, c.receiptStripped()...))
 	c.origObs = observe(ev, c.received)
 	if len(extraSigners) > 0 || pseudoInvitee != nil {
@@ -959,4 +982,34 @@ func firstOf(xs []string) string {
 		return "none"
 	}
 	return xs[0]
+}
+
+// plainEnough: no string or member name in the tree holds a character on which
+// encoding/json and Matrix canonical JSON spell differently.
+func plainEnough(v any) bool {
+	okStr := func(x string) bool {
+		for _, c := range x {
+			if c < 0x20 || c == 0x2028 || c == 0x2029 || c == 0xfffd {
+				return false
+			}
+		}
+		return true
+	}
+	switch x := v.(type) {
+	case string:
+		return okStr(x)
+	case map[string]any:
+		for k, e := range x {
+			if !okStr(k) || !plainEnough(e) {
+				return false
+			}
+		}
+	case []any:
+		for _, e := range x {
+			if !plainEnough(e) {
+				return false
+			}
+		}
+	}
+	return true
 }
